@@ -255,7 +255,7 @@ Definition pcg_step (s : pcg_state) : option pcg_state :=
   let it := S (pc_iter s) in
   let Ap := mulA (pc_p s) in
   let App := o_inner ops Ap (pc_p s) in
-  if ltb App 0 then Some (mkPcg (pc_x s) (pc_r s) (pc_p s) (pc_rz s) it (pc_hist s) false true)
+  if ltb App 0 then Some (mkPcg (pc_x s) (pc_r s) (pc_p s) (pc_rz s) (pc_iter s) (pc_hist s) false true)
   else
   match fdiv (pc_rz s) App with
   | None => None
@@ -293,6 +293,14 @@ Definition par_cg_scale (parts : list nat) (ztol2 : F) (b : list F) : F :=
   let bn := dnorm2sq parts b in if ltb bn ztol2 then 1 else bn.
 
 End Vec.
+Arguments cg_x {F}. Arguments cg_r {F}. Arguments cg_p {F}. Arguments cg_rr {F}. Arguments cg_iter {F}.
+Arguments cg_hist {F}. Arguments cg_indef {F}. Arguments mkCg {F}.
+Arguments bi_x {F}. Arguments bi_r {F}. Arguments bi_p {F}. Arguments bi_rrs {F}. Arguments bi_nsq {F}.
+Arguments bi_iter {F}. Arguments bi_hist {F}. Arguments mkBi {F}.
+Arguments pc_x {F}. Arguments pc_r {F}. Arguments pc_p {F}. Arguments pc_rz {F}. Arguments pc_iter {F}.
+Arguments pc_hist {F}. Arguments pc_stop {F}. Arguments pc_indef {F}. Arguments mkPcg {F}.
+Arguments o_inner {F}. Arguments o_norm2sq {F}. Arguments o_axpy {F}. Arguments o_scale {F}. Arguments mkOps {F}.
+Arguments map2 {A B C}. Arguments split_by {A}.
 
 (* ---------------- extended values: finite or not ---------------- *)
 Section XVal.
